@@ -9,7 +9,7 @@ from harness import table_scorers as ts
 from harness.engine import coq_bad_cases, coq_eval, nlist, zlist, zlit, zmat
 
 INFO = {
-    "extra_targets": ["Check/PeltCheck.vo"],
+    "extra_targets": ["Check/PeltCheck.vo", "Check/GenericCheck.vo"],
     "level": "proof",
     "rule": "integer table costs driven through the real PELT (penalty_ set to an integer after fit): "
             "stream A = sums of per-column min-loss costs (split inequality holds by construction, checked by split_okb in Coq), "
@@ -184,3 +184,6 @@ def run(ctx):
                           f"(after dividing by c^2), n={n} m={m} pen={pen}", {"x": x.ravel().tolist(), "pen": pen, "m": m, "values": vals}, {"what": "homogeneity"})
     from harness import helpers as _helpers
     _helpers.pelt_helpers(ctx)
+    # ---- the same search loop on BINARY64 score tables of the real built-in scorers (Model/Generic.v at Model/GenericF.v), bit for bit ----
+    from harness import floatstreams
+    floatstreams.pelt_float_stream(ctx, ctx.n(24, 160))
